@@ -429,7 +429,7 @@ func isFV1(c *Case, v Verdict) bool {
 
 func init() {
 	register("C07", familyASAVPN, oracleC07asaVPN)
-	register("C01", familyASAVPN, oracleC01asaVPN)
+	register("C01", familyASAVPN, withRefusal(oracleC01asaVPN, oracleC08asaVPN))
 	register("C08", familyASAVPN, oracleC08asaVPN)
 	register("C10", familyASAVPN, oracleC10asaVPN)
 	register("C16", familyASAVPN, oracleC16asaVPN)
